@@ -28,10 +28,14 @@ fn fract_information(f: f64) -> u64 {
     if f == 0.0 { return 0; }
     
     while (f.round() - f).abs() <= eps {
+        #[cfg(feature = "verif")]
+        crate::verif::tick("fract_information_1");
         f *= 10.0;
     }
     
     while (f.round() - f).abs() > eps {
+        #[cfg(feature = "verif")]
+        crate::verif::tick("fract_information_2");
         f *= 10.0;
     }
     
